@@ -128,6 +128,30 @@ def real(code):
     sx.reach("real")
 
 
+def real_specials(code, order):
+    """the special values of the statement, encoded one after another on one process (an encoder must not
+    carry state from one value to the next): +-0.0, +-inf, smallest subnormal, largest finite"""
+    import struct as _st
+    name = S301.NAMES[code]
+    var = _var(code)
+    fmt = "<f" if code == S301.REAL32 else "<d"
+    tiny = 1.401298464324817e-45 if code == S301.REAL32 else 5e-324
+    big = 3.4028234663852886e+38 if code == S301.REAL32 else 1.7976931348623157e+308
+    vals = [0.0, -0.0, float("inf"), float("-inf"), tiny, -tiny, big, -big, 1.0, -1.0]
+    if order:
+        vals = vals[::-1]
+    for v in vals:
+        data = var.encode_raw(v)
+        sx.prove(bytes(data) == _st.pack(fmt, v), "IEEE 754 image of %r" % v, "C04/%s/special-bytes" % name)
+        back = var.decode_raw(data)
+        sx.prove(_st.pack(fmt, back) == _st.pack(fmt, v), "round trip of %r" % v, "C04/%s/special-roundtrip" % name)
+    # integers in a row as well
+    ivar = _var(0x04)
+    for v in (0, -1, 1, -(1 << 31), (1 << 31) - 1, 0):
+        sx.prove(bytes(ivar.encode_raw(v)) == _st.pack("<l", v), "INTEGER32 image", "C04/INTEGER32/special-bytes")
+    sx.reach("real-specials")
+
+
 def real_decode(code):
     """every non-NaN bit pattern decodes to the IEEE value and re-encodes to itself."""
     name = S301.NAMES[code]
@@ -192,6 +216,8 @@ def jobs(tier):
     for code in (S301.REAL32, S301.REAL64):
         out.append(dict(func="real", params=dict(code=code)))
         out.append(dict(func="real_decode", params=dict(code=code)))
+        for order in (0, 1):
+            out.append(dict(func="real_specials", params=dict(code=code, order=order)))
     top = 8 if tier == "quick" else 12
     for code in (S301.VISIBLE_STRING, S301.UNICODE_STRING):
         for n in range(0, top + 1):
@@ -221,6 +247,6 @@ META = dict(
                  "z3 FP theory for REAL32/REAL64 conversions"],
     stubs=["struct", "bytes", "bytearray", "dict displays -> SymDict", "logging -> null"],
     required_reach=["rejected", "encoded", "decoded", "wrong-length-rejected", "len", "bool", "real",
-                    "real32-overflow-rejected", "real-decode", "text"],
+                    "real32-overflow-rejected", "real-decode", "real-specials", "text"],
     limits=dict(quick=dict(query_timeout_ms=30000), thorough=dict(query_timeout_ms=120000, crosscheck_every=3, crosscheck_max=40)),
 )
